@@ -969,6 +969,8 @@ static void	isofile_add_data_file(struct iso9660 *, struct isofile *);
 static struct isofile * isofile_new(struct archive_write *,
 		    struct archive_entry *);
 static void	isofile_free(struct isofile *);
+static int	isofile_check_metadata(struct archive_write *,
+		    struct isofile *);
 static int	isofile_gen_utility_names(struct archive_write *,
 		    struct isofile *);
 static int	isofile_register_hardlink(struct archive_write *,
@@ -1572,9 +1574,24 @@ iso9660_write_header(struct archive_write *a, struct archive_entry *entry)
 	 */
 	if (archive_strlen(&(file->parentdir)) == 0 &&
 	    archive_strlen(&(file->basename)) == 0) {
+		const char *pathname = archive_entry_pathname(entry);
+
 		isofile_free(file);
+		/* No name at all is not a name of the top directory. */
+		if (pathname == NULL || pathname[0] == '\0') {
+			archive_set_error(&a->archive, ARCHIVE_ERRNO_MISC,
+			    "Can't record entry in ISO image "
+			    "without pathname");
+			return (ARCHIVE_FAILED);
+		}
 		return (r);
 	}
+
+	/* The directory records are written by iso9660_close(): what
+	 * they cannot hold has to be found, and said, now. */
+	r = isofile_check_metadata(a, file);
+	if (r < ret)
+		ret = r;
 
 	isofile_add_entry(iso9660, file);
 	isoent = isoent_new(file);
@@ -4704,6 +4721,78 @@ cleanup_backslash_2(wchar_t *p)
 /*
  * Generate a parent directory name and a base name from a pathname.
  */
+/*
+ * A date of a directory record or a "TF" entry counts the years since
+ * 1900 in one byte.
+ */
+static int
+time_915_fits(time_t t)
+{
+	struct tm tm;
+
+	/* 1900-01-01 .. 2155-12-31 and a day for the time zone. */
+	if ((int64_t)t < -ARCHIVE_LITERAL_LL(2209075200) ||
+	    (int64_t)t > ARCHIVE_LITERAL_LL(5869670399))
+		return (0);
+	get_tmfromtime(&tm, &t);
+	return (tm.tm_year >= 0 && tm.tm_year <= 255);
+}
+
+/*
+ * Report what the image will not hold of the entry: user and group
+ * IDs of more than 32 bits are truncated by "PX", times outside
+ * 1900..2155 are left out.
+ */
+static int
+isofile_check_metadata(struct archive_write *a, struct isofile *file)
+{
+	struct iso9660 *iso9660 = a->format_data;
+	struct archive_entry *e = file->entry;
+	int r = ARCHIVE_OK;
+
+	if (iso9660->opt.rr != OPT_RR_DISABLED) {
+		if (archive_entry_uid(e) > ARCHIVE_LITERAL_LL(0xffffffff)) {
+			archive_set_error(&a->archive, ERANGE,
+			    "Numeric user ID too large");
+			r = ARCHIVE_WARN;
+		}
+		if (archive_entry_gid(e) > ARCHIVE_LITERAL_LL(0xffffffff)) {
+			archive_set_error(&a->archive, ERANGE,
+			    "Numeric group ID too large");
+			r = ARCHIVE_WARN;
+		}
+	}
+	if (archive_entry_mtime_is_set(e) &&
+	    !time_915_fits(archive_entry_mtime(e))) {
+		archive_entry_unset_mtime(e);
+		archive_set_error(&a->archive, ERANGE,
+		    "File time out of range");
+		r = ARCHIVE_WARN;
+	}
+	if (archive_entry_atime_is_set(e) &&
+	    !time_915_fits(archive_entry_atime(e))) {
+		archive_entry_unset_atime(e);
+		archive_set_error(&a->archive, ERANGE,
+		    "File time out of range");
+		r = ARCHIVE_WARN;
+	}
+	if (archive_entry_ctime_is_set(e) &&
+	    !time_915_fits(archive_entry_ctime(e))) {
+		archive_entry_unset_ctime(e);
+		archive_set_error(&a->archive, ERANGE,
+		    "File time out of range");
+		r = ARCHIVE_WARN;
+	}
+	if (archive_entry_birthtime_is_set(e) &&
+	    !time_915_fits(archive_entry_birthtime(e))) {
+		archive_entry_unset_birthtime(e);
+		archive_set_error(&a->archive, ERANGE,
+		    "File time out of range");
+		r = ARCHIVE_WARN;
+	}
+	return (r);
+}
+
 static int
 isofile_gen_utility_names(struct archive_write *a, struct isofile *file)
 {
